@@ -60,6 +60,7 @@ def to_events(trace):
     queued = {}                    # coroutine -> its current request was pushed
     word = "N"
     evs, entered, tries = [], [], []
+    try_pending = {}               # coroutine -> index in tries of its TryLock whose answer marker has not been seen yet
 
     def slot_of(f, c):
         if f in slot:
@@ -157,7 +158,11 @@ def to_events(trace):
                 evs.append("ETryBegin %d" % c)
                 phase[c], kind[c] = "try0", "try"
             elif name in ("ty", "tn"):
-                tries.append((c, 1 if name == "ty" else 0))
+                # the answer is the coroutine's own marker; its place in the order of answers is the operation that decided
+                # it (with --yield-at after/both other threads' operations may lie between the operation and the marker)
+                if c not in try_pending:
+                    raise ValueError("TryLock answer without a deciding operation: " + tok)
+                tries[try_pending.pop(c)] = (c, 1 if name == "ty" else 0)
             elif name == "x":
                 u = {"A": "UAwait", "H": "UHere", "S": "USticky"}.get(arg)
                 if u is None:
@@ -207,10 +212,16 @@ def to_events(trace):
         if ph == "try0" and op == "load":
             evs.append("ETLoad %d %s" % (c, ptr(val)))
             phase[c] = "trycas" if val == "N" else ("lock0" if kind[c] == "lock" else None)
+            if kind[c] == "try" and val != "N":
+                try_pending[c] = len(tries)
+                tries.append(None)
         elif ph == "trycas" and op == "compare_exchange_strong":
             ok = val != word
             evs.append("ETCas %d %s" % (c, "true" if ok else "false"))
             phase[c] = None if ok else ("lock0" if kind[c] == "lock" else None)
+            if kind[c] == "try":
+                try_pending[c] = len(tries)
+                tries.append(None)
         elif ph == "lock0" and op == "load":
             evs.append("ELLoad %d %s" % (c, ptr(val)))
             phase[c] = "loop"
@@ -232,6 +243,8 @@ def to_events(trace):
         else:
             raise ValueError("unexpected operation on the sender word (%s): %s" % (ph, tok))
         word = val
+    if try_pending:
+        raise ValueError("TryLock without an answer marker")
     params = "%s %s [%s] [%s]" % ("true" if fifo else "false", "true" if batching else "false",
                                   "; ".join(map(str, wexe)), "; ".join(map(str, homes)))
     return params, evs, entered, tries
@@ -304,7 +317,21 @@ def plan(ck):
     for i in range(8):
         P.append((["--only", "mix/", "--param", "mixes=%d" % (nmix // 8), "--param", "pseed=%d" % (ck.seed * 8 + i)],
                   ["--mode", "random", "--max", nexec, "--seed", str(ck.seed + i), "--weak", "1"], False))
-    return P
+    # where the explorer offers a fiber switch: every DFS suite runs twice, with the switch BEFORE each wrapped operation and
+    # with the switch AFTER it (a thread stopped between its CAS / exchange and the plain code that follows); the random
+    # walks switch at both places
+    Q = []
+    for sel, args, exh in P:
+        if "dfs" in args:
+            Q.append((sel, args + ["--yield-at", "before"], exh))
+            Q.append((sel, args + ["--yield-at", "after"], exh))
+        else:
+            Q.append((sel, args + ["--yield-at", "both"], exh))
+    return Q
+
+
+def yield_at_of(args):
+    return args[args.index("--yield-at") + 1] if "--yield-at" in args else "before"
 
 
 def main(ck):
@@ -350,16 +377,18 @@ def main(ck):
             ck.hits.append(dict(what="harness crashed on %s (rc=%d) %s%s" % (crashed, rc, (out or "")[-300:].strip(),
                                      ("; oracle verdict before the crash: " + verdicts[-1]) if verdicts else ""), key="crash",
                                 replay=dict(harness="h_c14", scenario=crashed, choices=m.group(2).strip(",") if m else None,
-                                            weak=weak, params=[a for a in sel if "=" in a] + [a for a in args if a.startswith("yields=")])))
+                                            weak=weak, yield_at=yield_at_of(args),
+                                            params=[a for a in sel if "=" in a] + [a for a in args if a.startswith("yields=")])))
             continue
         hs = [r for r in rows if "mode" in r]
         heads += hs
         weak = args[args.index("--weak") + 1] if "--weak" in args else "0"
         yields = "named" if "yields=named" in args else "all"
         params = [a for a in sel if "=" in a] + [a for a in args if a.startswith("yields=")]
+        ya = yield_at_of(args)
         for h in hs:
             if h["mode"] == "dfs" and h["exhaustive"]:
-                exhaustive_cfgs.append((h["scenario"], h["executions"], h["distinct"], weak, yields))
+                exhaustive_cfgs.append((h["scenario"], h["executions"], h["distinct"], weak, yields, ya))
             elif h["mode"] == "dfs":
                 bounded_cfgs.append((h["scenario"], h["executions"], h["distinct"], h["preemption_bound"]))
                 if exh:
@@ -368,7 +397,7 @@ def main(ck):
                 random_cfgs.append((h["scenario"], h["executions"], h["distinct"]))
         for t in rows:
             if "trace" in t:
-                t["weak"], t["params"] = weak, params
+                t["weak"], t["params"], t["yield_at"] = weak, params, ya
                 traces.append(t)
     ck.cov["evaluations"] = sum(h["executions"] for h in heads)
     ck.cov["exhaustive"] = False   # the exploration mixes exhaustive, bounded and random parts; see the breakdown
@@ -377,7 +406,9 @@ def main(ck):
     ck.cov["exhaustive_configurations"] = dict(summ(exhaustive_cfgs),
         one_worker_all_yields=sorted(set(c[0].rsplit("/", 1)[0] for c in exhaustive_cfgs if c[4] == "all"))[:40],
         named_yields=sorted(set(c[0].rsplit("/", 1)[0] for c in exhaustive_cfgs if c[4] == "named"))[:40],
-        with_spurious_weak_cas_failure=sum(1 for c in exhaustive_cfgs if c[3] != "0"))
+        with_spurious_weak_cas_failure=sum(1 for c in exhaustive_cfgs if c[3] != "0"),
+        switch_before_operation=summ([c for c in exhaustive_cfgs if c[5] == "before"]),
+        switch_after_operation=summ([c for c in exhaustive_cfgs if c[5] == "after"]))
     ck.cov["bounded_configurations"] = summ(bounded_cfgs)
     ck.cov["random_configurations"] = summ(random_cfgs)
     ck.cov["explore_wall_s"] = round(time.time() - t0, 1)
@@ -386,7 +417,7 @@ def main(ck):
             ck.hits.append(dict(what="%s: %s" % (t["scenario"], t["fail"]),
                                 key=re.sub(r"\d+", "N", t["fail"])[:60],
                                 replay=dict(harness="h_c14", scenario=t["scenario"], choices=t["choices"],
-                                            trace=t["trace"], weak=t["weak"], params=t["params"])))
+                                            trace=t["trace"], weak=t["weak"], yield_at=t["yield_at"], params=t["params"])))
     # ---- correspondence
     terms, metas, seen = [], [], set()
     for t in traces:
@@ -441,7 +472,9 @@ def main(ck):
     ck.cov["rule"] = ("every distinct implementation trace (operations on the sender word with their values, executor Submit markers, "
                       "coroutine markers) mapped to CoMutex.v events and replayed with vm_compute; the model must accept every event and "
                       "predict the order of critical-section entries (and which of them had queued), every TryLock answer, and end "
-                      "quiescent / free / all finished with arrivals = hand-overs.  Exhaustive DFS over every scheduling decision (switch "
+                      "quiescent / free / all finished with arrivals = hand-overs.  Every DFS suite runs twice: with the fiber switch offered BEFORE "
+                      "each wrapped operation and (--yield-at after) AFTER it, so that a thread is also stopped between its CAS / exchange and "
+                      "the plain code that follows; random walks switch at both places.  Exhaustive DFS over every scheduling decision (switch "
                       "before every wrapped operation, next fiber, which queued job a worker picks) for k = 2 coroutines x 1 round on ONE "
                       "worker of the manual executor: 18 lock/unlock form pairs x 3 partners x 4 <Batching,FIFO> options, without and with "
                       "the holder rescheduled inside its critical section, also with one spurious weak-CAS failure; for 3 coroutines "
@@ -459,7 +492,7 @@ def main(ck):
                                    pick(lambda x: x["scenario"].startswith("mix/") and " pool " in x["scenario"]))]
     for t, why in bad[:10]:
         ck.broken.append(dict(name="correspondence CoMutex.run vs implementation on %s" % t["scenario"],
-                              detail="%s\ntrace: %s\nchoices: %s\nweak: %s params: %s" % (why, t["trace"], t["choices"], t["weak"], " ".join(t["params"]))))
+                              detail="%s\ntrace: %s\nchoices: %s\nweak: %s yield-at: %s params: %s" % (why, t["trace"], t["choices"], t["weak"], t["yield_at"], " ".join(t["params"]))))
     if len(bad) > 10:
         ck.notes.append("%d traces in total disagree with the model" % len(bad))
     if not traces:
@@ -473,7 +506,8 @@ def replay(ck, path):
         print("nothing to replay: %s" % json.dumps(d)[:2000])
         return 0
     exe, b = vlib.compile_harness("F", [HARNESS], "c14")
-    args = ["--mode", "replay", "--exact", rp["scenario"], "--choices", rp["choices"], "--weak", str(rp.get("weak", "0"))]
+    args = ["--mode", "replay", "--exact", rp["scenario"], "--choices", rp["choices"], "--weak", str(rp.get("weak", "0")),
+            "--yield-at", rp.get("yield_at", "before")]
     for p in rp.get("params", []):
         args += ["--param", p]
     rows, out, err, rc = runner.run_harness(exe, args)
